@@ -17,6 +17,7 @@ RULE_MODULES = {
     "C04": "rules.c04_order",
     "C05": "rules.c05_layout",
     "C06": "rules.c06_fusedot",
+    "C07": "rules.c07_reshape",
     "C08": "rules.c08_dispatch",
     "C09": "rules.c09_typestate",
     "C10": "rules.c10_adjoint",
